@@ -764,9 +764,10 @@ def failed_start_is_undone(repo, rep):
                     ts = h.type.elts if isinstance(h.type, ast.Tuple) \
                         else [h.type]
                     names = [(dotted(t) or '').split('.')[-1] for t in ts]
+                # (the handler ends by raising again: bare, the caught
+                # exception itself, or one built from it)
                 if set(names) & {'Exception', 'BaseException'} and any(
-                        isinstance(x, ast.Raise) and x.exc is None
-                        for x in h.body):
+                        isinstance(x, ast.Raise) for x in h.body):
                     cleanup.append(h)
     r9.sites += 1
     if not cleanup:
